@@ -130,7 +130,7 @@ def check_doc(text, exp, fspecs, acc):
             l2 = bibtexparser.parse_string(w1)
             w2 = bibtexparser.write_string(l2, bibtex_format=fmt)
         except Exception as e:
-            acc.raised[type(e).__name__] += 1
+            acc.exception(e, case, "parse/write round trip", size=len(text))
             continue
         s1 = acc.step(("doc", text), "parse", content(l1))
         acc.transition(s1, ("write", spec), acc.state(("text", w1)))
